@@ -234,15 +234,22 @@ Record oper := MkOper { o_runners : list N; o_slot : option slot }.
 Definition oper_deploy (q : quirks) (o : oper) (runners : list N) : oper :=
   MkOper runners (if q_keep_slot q then o_slot o else None).
 
-(* result: 0 = barrier registered, 1 = rejected (id mismatch), 2 = all barriers in: checkpoint taken and acknowledged *)
+(* result: 0 = barrier registered, 1 = rejected (id mismatch), 2 = all barriers in: checkpoint taken and
+   acknowledged, 3 = the request is parked by alignSender (a slot exists and this sender's barrier is already in) *)
 Definition oper_barrier (o : oper) (sender id : N) : oper * N :=
-  let sl := match o_slot o with Some x => x | None => MkSlot id (o_runners o) end in
-  if negb (sl_id sl =? id) then (MkOper (o_runners o) (Some sl), 1)
-  else let w := rem sender (sl_wait sl) in
-       match w with
-       | [] => (MkOper (o_runners o) None, 2)
-       | _ => (MkOper (o_runners o) (Some (MkSlot id w)), 0)
-       end.
+  match o_slot o with
+  | Some sl0 => if negb (mem sender (sl_wait sl0)) then (o, 3) else
+      if negb (sl_id sl0 =? id) then (o, 1)
+      else match rem sender (sl_wait sl0) with
+           | [] => (MkOper (o_runners o) None, 2)
+           | w => (MkOper (o_runners o) (Some (MkSlot id w)), 0)
+           end
+  | None =>
+      match rem sender (o_runners o) with
+      | [] => (MkOper (o_runners o) None, 2)
+      | w => (MkOper (o_runners o) (Some (MkSlot id w)), 0)
+      end
+  end.
 
 Fixpoint oper_barriers (o : oper) (senders : list N) (id : N) : oper * list N :=
   match senders with
